@@ -305,6 +305,8 @@ def _build_alphaijk_binvars(cg: ComputationsFactorGraph, agents_names: Iterable[
     # As these variables are only used in the objective function,
     # when optimizing communication cost, we only need them when (i,j) is an
     # edge in the factor graph
+    if not cg.links:
+        return {}
     alphas = LpVariable.dict('a',
                              ([(link.variable_node,
                                 link.factor_node) for
